@@ -151,6 +151,8 @@ def states(ctx):
     S = {"no-history": T}
     flat = ops.build(ctx, T, [c("", ["xxh64"], i=["*.tmp"])], expect=[0])
     nested = ops.build(ctx, T, [c("d", ["md5"]), c("", ["xxh64", "c4"])], expect=[0, 0])
+    if flat is None or nested is None:
+        return S
     S["flat"] = flat
     S["nested"] = nested
     mp = ref.generations(flat, "")[0]["path"]
@@ -193,7 +195,7 @@ def command_forms(tree):
 def main(tier, seed):
     eng = engine.Engine(PROP, tier, seed, "model_checking")
     engine.selftest(eng)
-    S = states(eng.local_ctx())
+    S = engine.scenarios(eng, lambda: states(eng.local_ctx()))
     cases = []
     for sname, tree in S.items():
         forms, pl = command_forms(tree)
